@@ -4,7 +4,9 @@ package main
 import (
 	"bytes"
 	"encoding/json"
+	"errors"
 	"fmt"
+	"github.com/biogo/biogo/seq"
 	"io"
 	"os"
 	"os/exec"
@@ -34,7 +36,43 @@ type kase struct {
 	Groups bool `json:"groups,omitempty"`
 }
 
-var formats = []string{"fasta", "fastq", "fastq-solexa", "fastq-illumina1_3", "bed3", "bed4", "bed5", "bed6", "bed12", "gff", "gff-notime"} // gff-notime: the GFF reader with date parsing switched off (TimeFormat "")
+var formats = []string{"fasta", "fasta-picky", "fastq", "fastq-picky", "fastq-solexa", "fastq-illumina1_3", "bed3", "bed4", "bed5", "bed6", "bed12", "gff", "gff-notime"} // gff-notime: the GFF reader with date parsing switched off (TimeFormat "")
+
+// pickySeq / pickyQSeq are templates of the caller's own that refuse some names and descriptions (a
+// reader reports such an error with the record; it must not come to grief over it).
+var errPicky = errors.New("template: name or description refused")
+
+type pickySeq struct{ *linear.Seq }
+
+func (p pickySeq) Clone() seq.Sequence { return pickySeq{p.Seq.Clone().(*linear.Seq)} }
+func (p pickySeq) SetName(n string) error {
+	if strings.HasPrefix(n, "id") || n == "" {
+		return errPicky
+	}
+	return p.Seq.SetName(n)
+}
+func (p pickySeq) SetDescription(d string) error {
+	if d == "" || strings.Contains(d, "more") {
+		return errPicky
+	}
+	return p.Seq.SetDescription(d)
+}
+
+type pickyQSeq struct{ *linear.QSeq }
+
+func (p pickyQSeq) Clone() seq.Sequence { return pickyQSeq{p.QSeq.Clone().(*linear.QSeq)} }
+func (p pickyQSeq) SetName(n string) error {
+	if strings.HasPrefix(n, "id") || n == "" {
+		return errPicky
+	}
+	return p.QSeq.SetName(n)
+}
+func (p pickyQSeq) SetDescription(d string) error {
+	if d == "" || d == "d" {
+		return errors.New("template: description refused") // another error value than the name's
+	}
+	return p.QSeq.SetDescription(d)
+}
 
 // fastqEncoding: the quality encoding of the template a FASTQ format name stands for.
 func fastqEncoding(format string) alphabet.Encoding {
@@ -67,6 +105,12 @@ func readAll(k kase) (calls int, records int, err error, bad string) {
 	}
 	var read func() (interface{}, error)
 	switch {
+	case k.Format == "fasta-picky":
+		r := fasta.NewReader(bytes.NewReader(k.Data), pickySeq{linear.NewSeq("", nil, alphabet.DNA)})
+		read = func() (interface{}, error) { s, e := r.Read(); return s, e }
+	case k.Format == "fastq-picky":
+		r := fastq.NewReader(bytes.NewReader(k.Data), pickyQSeq{linear.NewQSeq("", nil, alphabet.DNA, alphabet.Sanger)})
+		read = func() (interface{}, error) { s, e := r.Read(); return s, e }
 	case k.Format == "fasta":
 		r := fasta.NewReader(bytes.NewReader(k.Data), linear.NewSeq("", nil, alphabet.DNA))
 		read = func() (interface{}, error) { s, e := r.Read(); return s, e }
@@ -350,9 +394,9 @@ func expect(format string, toks []token) (bool, string) {
 
 func tokensFor(format string) []token {
 	switch format {
-	case "fasta":
+	case "fasta", "fasta-picky":
 		return fastaTokens
-	case "fastq", "fastq-solexa", "fastq-illumina1_3":
+	case "fastq", "fastq-picky", "fastq-solexa", "fastq-illumina1_3":
 		return fastqTokens
 	case "gff", "gff-notime":
 		return gffTokens
@@ -367,6 +411,8 @@ func tokensFor(format string) []token {
 var seeds = map[string][]string{
 	"fasta":             {">s1 first\nacgtacgt\nacgt\n>s2\nttga\n"},
 	"fastq":             {"@r1 d\nacgt\n+\n!!!!\n@r2\nac\n+r2\n@+\n"},
+	"fastq-picky":       {"@id1 d\nacgt\n+\n!!!!\n@r2\nac\n+r2\n@+\n"},
+	"fasta-picky":       {">id1 first more\nacgtacgt\nacgt\n>s2\nttga\n"},
 	"fastq-solexa":      {"@r1 d\nacgt\n+\n;@h~\n@r2\nac\n+r2\n\xc0\xff\n"},
 	"fastq-illumina1_3": {"@r1 d\nacgt\n+\n@Bh~\n@r2\nac\n+r2\n\x00\xff\n"},
 	"bed3":              {"chr1\t10\t20\nchr2\t0\t5\n"},
@@ -419,7 +465,7 @@ func mutations(seed string) [][]byte {
 }
 
 func run(c *enum.Ctx) {
-	c.Rule("per format (FASTA, FASTQ with a Sanger, a Solexa and an Illumina 1.3 template, BED3/4/5/6/12, GFF): (a) every sequence of <=3 (thorough 4) line tokens from an alphabet of 10-30 line shapes (valid lines and every invalid shape the statement lists; metadata lines with an emptied field, BED12 lines without blocks), each with and without a final newline and with CRLF; (b) every byte string of length <=4 (thorough 5) over 15 structural bytes; (c) every single mutation (thorough: every pair) of a valid seed file: delete/duplicate a line, delete/duplicate/replace a column by {'',0,-1,2^63,x,1e3,' '}, truncate at every byte offset; oracle: no panic, every call returns a record or an error, io.EOF or an error within lines+1 calls, and inputs with an invalid line of a listed kind end in a non-EOF error; (d) the size ladder (one field of a well-formed file - letters, name, block lists with and without trailing comma, attributes, comment, inline sequence - with 2^k-1, 2^k, 2^k+1 (also 3*2^k, 10^j-1, 10^j, 10^j+1, 5*10^j) elements up to 1025, thorough 8193); FASTQ files of <=3 (4) four-line groups over 9 letters/qualities shapes (two with white space inside the quality line: as many raw bytes as letters but fewer scores, and the reverse) x 2 '+'-line styles, read on past errors: every record that comes back is its own group and no group with differing lengths ever comes back; distinct = distinct inputs; non-trivial = inputs with at least one complete line")
+	c.Rule("per format (FASTA, FASTQ with a Sanger, a Solexa and an Illumina 1.3 template, FASTA and FASTQ with a template of the caller's own that refuses some names and descriptions, BED3/4/5/6/12, GFF): (a) every sequence of <=3 (thorough 4) line tokens from an alphabet of 10-30 line shapes (valid lines and every invalid shape the statement lists; metadata lines with an emptied field, BED12 lines without blocks), each with and without a final newline and with CRLF; (b) every byte string of length <=4 (thorough 5) over 15 structural bytes; (c) every single mutation (thorough: every pair) of a valid seed file: delete/duplicate a line, delete/duplicate/replace a column by {'',0,-1,2^63,x,1e3,' '}, truncate at every byte offset; oracle: no panic, every call returns a record or an error, io.EOF or an error within lines+1 calls, and inputs with an invalid line of a listed kind end in a non-EOF error; (d) the size ladder (one field of a well-formed file - letters, name, block lists with and without trailing comma, attributes, comment, inline sequence - with 2^k-1, 2^k, 2^k+1 (also 3*2^k, 10^j-1, 10^j, 10^j+1, 5*10^j) elements up to 1025, thorough 8193); FASTQ files of <=3 (4) four-line groups over 9 letters/qualities shapes (two with white space inside the quality line: as many raw bytes as letters but fewer scores, and the reverse) x 2 '+'-line styles, read on past errors: every record that comes back is its own group and no group with differing lengths ever comes back; distinct = distinct inputs; non-trivial = inputs with at least one complete line")
 	c.Assume("a hang is detected by a progress watchdog and confirmed by re-running the single input in a child process before it is reported")
 	depth, blen := 3, 4
 	if !c.Quick {
